@@ -3,7 +3,7 @@
    generated circuits); Spec/QasmStrict.v: strict reader; Spec/Qasm.v, QasmSem.v: the standard's semantics;
    Gen/Qasm.v: name map and definition strings regenerated from qasm.py on every run. *)
 From QV Require Import Model.QasmImport Model.QasmExport Spec.QasmStrict Spec.QasmSem Found.Circ Gen.Gates Gen.Qasm.
-From QV Require Import Proofs.QasmShortcut Proofs.QasmExport.
+From QV Require Import Proofs.QasmShortcut Proofs.QasmExport Proofs.QasmLex Proofs.QasmLex2 Proofs.QasmLex3.
 Local Open Scope string_scope.
 Local Open Scope nat_scope.
 Local Open Scope list_scope.
@@ -49,9 +49,11 @@ Print Assumptions export_refuses_unstored_measurement.
    Full statement: forall c t, no_meas c = true -> export c = Some t -> exists p, strict_parse t = Some p /\ wf lib_sigs p = true.
    The guard is necessary (export_valid_measure_refuted): Measurement._to_qasm prints `measure q[i] -> c[j]` without the ';'
    (open known finding measure-without-semicolon; the string is pinned by tests/test_qasm.py and cannot be repaired here).
-   Proved: the definitions and the statement shapes (zero, exponent, tuple parameters) are accepted; the general statement
-   needs a printer/lexer inversion lemma for decimal numerals that is not proved - it is checked by vm_compute of
-   strict_parse on the model's text for every generated measurement-free circuit in the correspondence run. *)
+   Proved: the emitted definitions and the statement shapes (zero, exponent, tuple parameters) are accepted (below), and - for
+   ALL numbers, parameter containers and qubit lists - every number and every gate statement line lexes to the expected tokens
+   (export_number_lexes, export_statement_lexes).  Not proved: the assembly over the whole text (header, register lines,
+   definition lines) and the PARSER's acceptance of the statement tokens; these remain checked by vm_compute of strict_parse
+   on the model's text for every generated measurement-free circuit in the correspondence run. *)
 Theorem export_valid_partial :
   forallb defn_chk export_defns = true /\
   (exists t, qasm_str "rx" [] [0] (PNum (NFloat (FDec false "0" "0"))) = Some t /\ accepted t = true) /\
@@ -59,6 +61,29 @@ Theorem export_valid_partial :
   (exists t, qasm_str "U" [] [0] (PTuple [NFloat (FDec false "1" "0"); NFloat (FDec false "2" "0"); NInt false 3]) = Some t /\ accepted t = true).
 Proof. exact (conj chk_defns_true format_fixed_ok). Qed.
 Print Assumptions export_valid_partial.
+
+(* export_valid, lexer half (the decimal printer / strict-lexer inversion), for ALL values:
+   every number the exporter prints - str(int), and repr(float) of any of the shapes [-]d.d, [-]d[.d]e(+|-)dd whose
+   parts are non-empty digit strings - is read by the strict lexer as ONE numeral token (after an optional '-'),
+   whatever closing character and text follow (LXc: in at most one lexer step per character). *)
+Theorem export_number_lexes : forall x t, shape_ok x -> qasm_number x = Some t ->
+  exists ts, num_toks ts /\ LXc (la t) ts.
+Proof. exact number_lx. Qed.
+Print Assumptions export_number_lexes.
+
+(* every gate statement line the exporter prints (any exported name that is an identifier, any controls/targets, any
+   parameter value None | number | list | tuple | ndarray of numbers of valid shape), followed by a newline, is read by
+   the strict lexer as exactly the tokens of a statement  name [ ( numerals , .. ) ] q[i] , .. ;  whatever follows. *)
+Theorem export_statement_lexes : forall q controls targets a line,
+  ident_chars (la q) -> shape_ok_val a -> qasm_str q controls targets a = Some line ->
+  exists atoks, LX (la line ++ [chr 10]) (stmt_toks (str_of (la q)) atoks (controls ++ targets)) /\
+                (atoks = [] \/ exists tokss, tokss <> [] /\ Forall num_toks tokss /\ atoks = sep_toks tokss).
+Proof. exact stmt_lx. Qed.
+Print Assumptions export_statement_lexes.
+(* all names gates are exported under are identifiers *)
+Theorem export_names_are_identifiers : forallb (fun p => identb (snd p)) exportable = true.
+Proof. vm_compute. reflexivity. Qed.
+Print Assumptions export_names_are_identifiers.
 
 (* without the guard: a circuit with a measurement is exported to a text the strict reader rejects *)
 Theorem export_valid_measure_refuted : exists c, no_meas c = false /\ strict_ok c = Some false.
@@ -84,6 +109,13 @@ Example guard_satisfiable : no_meas (mkEC 2 1 [EGate "X" [0] [] PNone false]) = 
   strict_ok (mkEC 2 1 [EGate "X" [0] [] PNone false]) = Some true /\
   accepted (meas_text 1 0) = false /\ accepted (meas_text 1 0 ++ ";")%string = true.
 Proof. exact (conj (proj1 valid_without_measure) (conj (proj2 valid_without_measure) measure_line_with_semicolon)). Qed.
+Example statement_lexes_instance :
+  shape_ok_val (PTuple [NFloat (FExp true "1" None true "09"); NInt false 0; NFloat (FDec false "3" "25")]) /\
+  ident_chars (la "U") /\ qasm_str "U" [] [2] (PTuple [NFloat (FExp true "1" None true "09"); NInt false 0; NFloat (FDec false "3" "25")]) = Some "U(-1.0e-09,0,3.25) q[2];".
+Proof.
+  split; [|split; [split; reflexivity|vm_compute; reflexivity]].
+  cbn [shape_ok_val]. repeat (first [apply Forall_cons | apply Forall_nil | exact I | discriminate | reflexivity | split]).
+Qed.
 Example refuses_instance : export (mkEC 2 0 [EGate "CSIGN" [1] [0] PNone false]) = None /\
   export (mkEC 1 0 [EGate "RX" [0] [] (PNum (NFloat (FInf false))) false]) = None.
 Proof. split; vm_compute; reflexivity. Qed.
